@@ -69,6 +69,7 @@ def pBidType : P (Option BidType) := do
   | "W" => pure (some .worth)
   | "M" => pure (some .many)
   | "X" => pure none
+  | "N" => pure none
   | _ => failure
 
 def pOptNat : P (Option Nat) := do
